@@ -31,6 +31,14 @@ impl<T: Norm, E: Norm> Norm for Result<T, E> {
         }
     }
 }
+impl<T: Norm> Norm for Option<T> {
+    fn norm(self) -> Out {
+        match self {
+            Some(v) => Out::Ok(Box::new(v.norm())),
+            None => Out::Err(Box::new(Out::F(Vec::new()))),
+        }
+    }
+}
 macro_rules! norm_tuples {
     ($( ($($n:ident $i:tt),+) ),+) => {$(
         impl<$($n: Norm),+> Norm for ($($n,)+) {
